@@ -383,15 +383,18 @@ impl<SVC: Service> CloudServer<SVC> {
         }
 
         // Now continue iterating backward from that version; any version in `old_versions` can be
-        // deleted.
+        // deleted. Delete the oldest first, so that if this is interrupted the remaining
+        // versions still form an unbroken chain up to "latest".
+        let mut to_delete = Vec::new();
         let mut version = latest_snapshot;
         while let Some(parent) = rev_chain.get(&version) {
             if old_versions.contains(&version) {
-                self.service
-                    .del(&Self::version_name(parent, &version))
-                    .await?;
+                to_delete.push(Self::version_name(parent, &version));
             }
             version = *parent;
+        }
+        for name in to_delete.iter().rev() {
+            self.service.del(name).await?;
         }
 
         Ok(())
